@@ -9,6 +9,7 @@ CONSTANTS
     CapN = 1
     Cache = 4096
     Compress = FALSE
+    ExtK = 0
     CapProbe = TRUE
     Debug = FALSE
     HookMode = "ok"
